@@ -1,7 +1,8 @@
 (* Properties_C09.v — C09: integer roots, remainders and perfect-power tests are exact.
    Statements only. *)
 From Coq Require Import ZArith List Bool.
-From Mpir Require Import Word DivDefs RootDefs RootProofs.
+From Mpir Require Import Word DivDefs RootDefs RootProofs TablesDefs TablesProofs.
+From MpirGen Require Import Gen_Consts.
 Import ListNotations.
 Local Open Scope Z_scope.
 
@@ -43,6 +44,12 @@ Theorem C09_perfect_tests : forall u,
   /\ (mpz_perfect_power_p u = true <-> exists a b, 1 < b /\ u = a ^ b).
 Proof. exact perfect_tests_spec. Qed.
 Print Assumptions C09_perfect_tests.
+
+(* the REGENERATED seed table of the one-limb square root (approx_tab of sqrtrem.c): entry i - 64 is floor (sqrt (256 i)) for every
+   leading byte i = 64 .. 255 - the single correction step after the table look-up is enough only for this floor *)
+Theorem C09_sqrt_seed_table : forall i, 64 <= i < 256 -> nth (Z.to_nat (i - 64)) sqrt_approx_tab 0 = Z.sqrt (256 * i).
+Proof. exact sqrt_tab_entries. Qed.
+Print Assumptions C09_sqrt_seed_table.
 
 Example C09_nonvacuous :
   mpn_sqrtrem (2 ^ 128 - 1) = (2 ^ 64 - 1, 2 ^ 65 - 2) /\ mpz_root (-27) 3 = ROk (-3, true)
